@@ -749,6 +749,9 @@ class Executor(Evaluator):
 
     def seq_descriptor(self, v, st):
         ty = v.ty
+        d0 = bm.iter_descriptor(self, v, st)
+        if d0 is not None:
+            return d0
         if isinstance(ty, TStr):
             return ('seq', slen(v.term), lambda k, h, t=v.term: mk_str(schr(sat(t, k))))
         if isinstance(ty, TSeq):
